@@ -521,6 +521,8 @@ const (
 
 func (t *smallHuffCodeTable) genForDists(codes []huffCode, count []uint16, maxSymbol uint32) {
 	var countTotal, countTotalTmp [17]uint32
+	// entries of the previous block must not answer for codes this block leaves unassigned
+	t.ShortCodeLookup = [1 << distLookupBits]uint16{}
 
 	for i := 2; i < 17; i++ {
 		countTotal[i] = countTotal[i-1] + uint32(count[i-1])
